@@ -7,6 +7,7 @@ from . import ftlib as F
 
 ID = "C07"
 CHECKER = "chk_ft"
+THEOREMS = ['C07_value_independent', 'C07_none_zero', 'C07_etrapz_weights', 'C07_eweights_nth', 'C07_tw_nth', 'C07_formula', 'C07_homogeneous', 'C07_monotone', 'C07_lower_bound', 'C07_upper_bound', 'C07_upper_bound_strict', 'C07_uniform_weights', 'C07_uniform_grid', 'C07_F_to_G_scaling', 'C07_F_to_G_value_independent', 'C07_F_to_G_none_zero', 'C07_F_to_G_homogeneous', 'C07_F_to_G_monotone']
 RULE = ("fourier_transform / F_to_G / G_to_F third return value on strictly increasing grids, Lorch on and off, windows, uncertainties "
         "absent / zero / sparse / positive / large; non-trivial = some returned uncertainty non-zero; distinct by input hash")
 
